@@ -77,8 +77,94 @@ def ob_text_kernel(r, tier, seed, fn, maxlen):
             r.findings.append(Finding('wrong-result', '%s(%r, %d) = %r, the reference scan gives %r' % (fn, txt, o, gotc, want), {'text': txt, 'offset': o}, True, 'value returned by the real function (MIR); the function is private, natively reachable only through the completion entry points'))
         elif len(r.samples) < 3 and got is not None: r.samples.append({'text': txt, 'offset': o, 'result': str(gotc)})
 
+
+# ----------------------------------------------------------------------------- O20.2 the front ends of the three queries, up to the call of the typer
+class Cut(Exception): pass
+PLACEHOLDER = 'completion_placeholder'
+_LEXED = {}
+def native_lex(text):
+    if text not in _LEXED:
+        rc, out, errt = build.run_driver('vreplay', json.dumps({'fn': 'lex', 'args': [text]}) + '\n', timeout=120)
+        try: _LEXED[text] = json.loads(out.splitlines()[0])['ok']
+        except Exception: raise Unsupported('native lexer failed on %r: %s' % (text, errt[-200:]))
+    return _LEXED[text]
+
+def native_query_one(which, text, line, col):
+    rc, out, errt = build.run_driver('vreplay', json.dumps({'fn': 'query_one', 'args': [which, text, line, col]}) + '\n', timeout=120)
+    for l in out.splitlines():
+        if l.strip(): return json.loads(l), errt
+    return {'error': errt[-300:], 'rc': rc}, errt
+
+FRONT_CRATES = ('compiler', 'parser', 'lexer', 'diagnostics', 'cst', 'ast', 'common_defs')
+WHICH = {'hover_type': 'hover', 'dot_completions': 'dot', 'colon_colon_completions': 'colon'}
+
+def ob_query_front(r, tier, seed, fn, maxlen, alpha, fixed):
+    from props import parser_ob
+    from mirsym.engine import Opaque, Panic
+    W = e2.fresh_world(FRONT_CRATES); W.overrides = [parser_ob.stub_overrides]; W.step_limit = 3000000
+    TK = W.tt.find_adt(['lexer', 'TokenKind'], 'parser'); TOK = W.tt.find_adt(['lexer', 'Token'], 'parser')
+    r.bounds = ('query::%s from its entry to the first call of the type checker, on every text of 0..%d characters over %r and on the texts %s; line and column symbolic '
+                '(line: the whole u32 range, column: 0..2^31)' % (fn, maxlen, alpha, [repr(t) for t in fixed]))
+    r.assumptions = ['the logos-generated lexer is outside E2\'s reach: lexer::lex is an environment call answered by the real lexer run natively on the (concrete) text of the path',
+                     'typecheck_single_file_for_query / typecheck_with_packages_and_results end the path (what the typer does with an error-tolerant tree is outside this facet)',
+                     'models with their own contracts as panic edges: rowan token_at_offset ("Bad offset" assertion of rowan 0.16 cursor.rs), line_index::LineIndex::offset (line-index 0.1.2: line start + column, u32 addition), String::insert_str (char boundary)',
+                     'column <= 2^31: line start + column does not overflow u32 inside the external text-size crate',
+                     'oracle: no panic edge for any text / line / column; the text handed to the type checker is the input, with the completion placeholder inserted at the cursor exactly when the identifier prefix before the cursor is empty']
+    def stub_lex(ex, a):
+        text = ms.pystr(ex.deref(a[0])); toks = []
+        for k, t, st, en in native_lex(text):
+            toks.append(Agg(TOK.key, 0, [Agg(TK.key, TK.vindex(k), []), mkstr(t), Agg('TextRange', 0, [st, en])]))
+        return PyVec(toks)
+    W.stubs['lex'] = stub_lex
+    def cut(ex, a): raise Cut(ms.pystr(ex.deref(a[1])))
+    W.stubs['typecheck_single_file_for_query'] = cut; W.stubs['typecheck_with_packages_and_results'] = cut
+    def entry(ex):
+        k = ex.choose([(True, ('gen', n)) for n in range(0, maxlen + 1)] + [(True, ('fix', t)) for t in fixed])
+        text = ''.join(ex.choose([(True, ch) for ch in alpha]) for _ in range(k[1])) if k[0] == 'gen' else k[1]
+        line = ex.fresh_int('line', 0, 2**32 - 1); col = ex.fresh_int('col', 0, 2**31)
+        ex.notes['txt'] = text; ex.notes['line'] = line; ex.notes['col'] = col
+        h = {0: Opaque('path'), 1: mkstr(text)}
+        try: res = ex.call('query::' + fn, [Ref(h, 0), Ref(h, 1), line, col])
+        except Cut as c: return text, line, col, ('cut', str(c))
+        return text, line, col, ('ret', res.idx)
+    res = e2.explore(r, W, entry, [], path_limit=400000)
+    cuts = 0
+    for p in res:
+        r.cases += 1
+        if p.kind != 'ok':
+            n = p.notes or {}; txt = n.get('txt'); key = 'panic-' + ('offset-beyond-text' if 'Bad offset' in str(p.value) else ('insert-not-on-boundary' if 'insert_str' in str(p.value) else 'other'))
+            if any(f.key == key for f in r.findings): continue
+            m, dt = e2.check(list(p.pc)); r.queries += 1; r.solver_s += dt
+            if m is None or txt is None: raise Unsupported('panic path without a model: %s' % str(p.value)[:200])
+            ln, cl = e2.mval(m, n['line']), e2.mval(m, n['col'])
+            nat, errt = native_query_one(WHICH[fn], txt, ln, cl)
+            r.findings.append(Finding(key, '%s(%r, line %d, column %d) panics: %s' % (fn, txt, ln, cl, str(p.value)[:160]), {'text': txt, 'line': ln, 'col': cl},
+                                      bool(nat.get('panic')), 'native %s at that position: %s' % (fn, (json.dumps(nat) + ' ' + ' '.join(errt.split('\n')[1:3]))[:300])))
+            continue
+        text, line, col, (kind, val) = p.value; r.nontrivial += 1
+        if kind != 'cut' or fn == 'hover_type': continue
+        cuts += 1
+        m, dt = e2.check(list(p.pc)); r.queries += 1; r.solver_s += dt
+        if m is None: continue
+        ln, cl = e2.mval(m, line), e2.mval(m, col); b = text.encode()
+        starts = [0] + [i + 1 for i, c in enumerate(b) if c == 10]
+        off = starts[ln] + cl if ln < len(starts) else None
+        pre = ref_ident_prefix(text, off) if off is not None else None
+        want = None if pre is None else (text if pre[1] else (b[:off] + PLACEHOLDER.encode() + b[off:]).decode())
+        if val != want and not any(f.key == 'wrong-text-to-typer' for f in r.findings):
+            nat, errt = native_query_one(WHICH[fn], text, ln, cl)
+            r.findings.append(Finding('wrong-text-to-typer', '%s(%r, line %d, column %d) type-checks the text %r, expected %r' % (fn, text, ln, cl, val, want), {'text': text, 'line': ln, 'col': cl}, True,
+                                      'text passed by the real function (MIR) to typecheck_single_file_for_query; native result at that position: %s' % json.dumps(nat)[:200]))
+        elif len(r.samples) < 3: r.samples.append({'text': text, 'line': ln, 'col': cl, 'typechecked': val})
+    if fn != 'hover_type' and cuts == 0: raise Unsupported('vacuous: no path of %s reaches the type checker' % fn)
+
 def obligations():
-    return [Ob('O20.1-ident-prefix', 'ident_prefix_at_offset returns normally for every text and every offset, with the identifier prefix before the cursor', ob_text_kernel, ('quick', 'thorough'), 5, dict(fn='ident_prefix_at_offset', maxlen=3)),
+    FIXED = ['struct P{x:int32}\nfn f(p:P){p.}', 'fn f(){E::}', 'fn f(p:P){p.xé}', 'fn f(){E::Vé}']
+    front = []
+    for fn in ('hover_type', 'dot_completions', 'colon_colon_completions'):
+        front.append(Ob('O20.2-front-' + fn, fn + ' returns normally from its entry up to the type checker for every text, line and column', ob_query_front, ('quick', 'thorough'), 10, dict(fn=fn, maxlen=2, alpha='a.:\né', fixed=FIXED)))
+        front.append(Ob('O20.2-front-' + fn + '-3', 'same, texts of up to 3 characters over a larger alphabet', ob_query_front, ('thorough',), 30, dict(fn=fn, maxlen=3, alpha='a.:\né _', fixed=FIXED)))
+    return front + [Ob('O20.1-ident-prefix', 'ident_prefix_at_offset returns normally for every text and every offset, with the identifier prefix before the cursor', ob_text_kernel, ('quick', 'thorough'), 5, dict(fn='ident_prefix_at_offset', maxlen=3)),
             Ob('O20.1-path-segments', 'path_segments_at_offset returns normally for every text and every offset, with the path around the cursor', ob_text_kernel, ('quick', 'thorough'), 5, dict(fn='path_segments_at_offset', maxlen=3)),
             Ob('O20.1-ident-prefix-4', 'same, texts of up to 4 characters', ob_text_kernel, ('thorough',), 30, dict(fn='ident_prefix_at_offset', maxlen=4)),
             Ob('O20.1-path-segments-4', 'same, texts of up to 4 characters', ob_text_kernel, ('thorough',), 30, dict(fn='path_segments_at_offset', maxlen=4))]
